@@ -347,11 +347,79 @@ def _nonzero(a, t):
     return t
 
 
+def implies_own_queue(e, thid):
+    """does the truth of e imply that the queue belongs to a stream with th_id != 0 ?"""
+    from sa.facts import cond_atom
+    if e.k == 'bin' and e.op == '&&':
+        return implies_own_queue(e.ch[0], thid) or implies_own_queue(e.ch[1], thid)
+    if e.k == 'bin' and e.op == '||':
+        return implies_own_queue(e.ch[0], thid) and implies_own_queue(e.ch[1], thid)
+    if e.k == 'cond':
+        return False
+    a, pol = cond_atom(e)
+    if a.s == thid:
+        return pol                      # th_id  /  th_id != 0
+    if a.k == 'bin' and a.op in ('>', '>=', '<', '<=') and pol:
+        l, r = a.ch
+        if l.s == thid and ((a.op == '>' and r.cv is not None and r.cv >= 0) or (a.op == '>=' and r.cv is not None and r.cv >= 1)):
+            return True
+        if r.s == thid and ((a.op == '<' and l.cv is not None and l.cv >= 0) or (a.op == '<=' and l.cv is not None and l.cv >= 1)):
+            return True
+    return False
+
+
+def check_single_writer(ctx, rf, ul, us):
+    """R08.f — the llp sorted merge has a fast path that publishes the merged list with a plain store; it is only
+    correct for queues into which no other thread pushes.  Facts from scheduling.c: foreign threads (and the
+    communication thread) deliver rings to execution stream 0 of a virtual process only.  Hence the fast path
+    may be requested only under a condition that implies es->th_id != 0."""
+    f = ul.func('sched_llp_schedule')
+    es = f.params[0]['n']
+    calls = f.calls('lifo_chain_sorted')
+    if not calls:
+        raise AnalysisBroken('sched_llp_schedule: lifo_chain_sorted call not found')
+    g = ul.func('lifo_chain_sorted')
+    widx = [i for i, p in enumerate(g.params) if p['n'] == 'single_writer']
+    if not widx:
+        raise AnalysisBroken('lifo_chain_sorted: single_writer parameter not found')
+    n = 0
+    for pi in pathq.all_paths(f):
+        for e, v in pi.calls('lifo_chain_sorted'):
+            n += 1
+            arg = e.args[widx[0]].subst(v)
+            rf.expect(implies_own_queue(arg, '%s->th_id' % es), 'llp:single-writer-arg', e.loc,
+                      'lifo_chain_sorted is asked for the single-writer fast path under "%s", which does not imply es->th_id != 0: other threads deliver rings to stream 0 and a concurrent push would be overwritten' % arg.s,
+                      note='single_writer = %s implies th_id != 0' % arg.s)
+    if n == 0:
+        raise AnalysisBroken('sched_llp_schedule: no call on any path')
+    # the fact the rule relies on: who is targeted by foreign pushes
+    for fn in us.funcs().values():
+        if not fn.file.endswith('scheduling.c'):
+            continue
+        own = {p['n'] for p in fn.params}
+        for e in fn.calls('__parsec_schedule'):
+            tgt = e.args[0]
+            defs = [s_ for s_ in fn.stores(tgt.s) if s_.rhs is not None] if tgt.k == 'ref' else []
+            srcs = [tgt] if not defs else [d.rhs for d in defs]
+            for sx in srcs:
+                if sx.k == 'ref' and (sx.s in own or sx.dk == 'parm'):
+                    rf.ok(e.loc, '%s: schedules on the stream it was given (%s)' % (fn.name, sx.s)); continue
+                if sx.k == 'idx' and sx.ch[0].s.endswith('execution_streams'):
+                    if sx.ch[1].cv == 0:
+                        rf.ok(e.loc, '%s: foreign target is stream 0 (%s)' % (fn.name, sx.s)); continue
+                    if fn.name == '__parsec_reschedule':
+                        rf.ok(e.loc, '__parsec_reschedule targets execution_streams[start_eu] — named exception: only called by accelerator code that is not part of this build')
+                        continue
+                if sx.k == 'cond':
+                    continue
+                rf.bad('foreign-target:%s' % fn.name, e.loc, '%s schedules on %s: the llp single-writer rule assumes foreign pushes only target stream 0' % (fn.name, sx.s))
+
+
 def run(ctx):
     ctx.explanation = ('Static clauses for all 11 scheduler modules: (a) module tables complete; (b) linear-resource typestate — in every sched_*_schedule the ring parameter is handed to exactly one container '
                        'sink on every path (wrapper summaries computed from the unit; ltq: each walked element heap-inserted, heap ring linked and pushed once); (c) every sched_*_select returns only values obtained '
                        'from a container pop, never drops an earlier non-NULL pop, writes *distance whenever it may return a task, and (ltq) pushes back every heap left non-empty; (d) hbbuffer push_all / '
-                       'push_all_by_priority cannot exit with a non-empty remainder except through parent_push_fct, re-join / merge rules, advance only after a successful CAS; (e) __parsec_schedule forwards once, '
+                       'push_all_by_priority cannot exit with a non-empty remainder except through parent_push_fct, re-join / merge rules, advance only after a successful CAS; (e) __parsec_schedule forwards once, (f) the llp scheduler requests the plain-store single-writer publication only under a condition implying th_id != 0, given that foreign pushes target stream 0 only; '
                        '__parsec_schedule_vp schedules each non-NULL ring slot exactly once (or retains its single task as next_task) and clears the slot only after success.')
     ctx.not_decided = 'concurrent interleavings inside lifo/list/hbbuffer (C30-C32, C35); eventual selection (liveness).'
     ra = ctx.rule('R08.a', 'module tables: install/flow_init/schedule/select/remove non-NULL', floor=11)
@@ -374,6 +442,8 @@ def run(ctx):
         ctx.functions_analysed.update([fs.name, fsel.name])
         check_schedule(ctx, rb, s, u, fs)
         check_select(ctx, rc, s, u, fsel)
+    rf = ctx.rule('R08.f', 'llp: single-writer fast path only for queues nobody else pushes to', floor=4)
+    check_single_writer(ctx, rf, ctx.extract(unit_of('llp')), ctx.extract('parsec/scheduling.c'))
     u = ctx.extract('parsec/hbbuffer.c')
     check_hbbuffer(ctx, rd, u)
     u = ctx.extract('parsec/scheduling.c')
